@@ -72,12 +72,17 @@ def main(pid, search_fn, replay_fn):
         TIER = req.get("tier", "quick")
         results = {}
         for item in req["failed"]:
+            err = None
             try:
                 w = search_fn(item, req.get("seed", 0))
-            except Exception as ex:   # harness error: no witness, never a violation by itself
-                sys.stderr.write(f"witness search error for {item['key']}: {type(ex).__name__}: {ex}\n")
+            except Exception as ex:   # harness error: no witness, never a violation by itself -- but reported, so that a broken harness is not mistaken for "nothing found"
+                import traceback
+                err = f"{type(ex).__name__}: {ex} ({traceback.format_exc().strip().splitlines()[-3].strip()[:160]})"
+                sys.stderr.write(f"witness search error for {item['key']}: {err}\n")
                 w = None
-            if w is not None and "known_only" in w:
+            if err is not None:
+                results[item["key"]] = dict(found=False, error=err)
+            elif w is not None and "known_only" in w:
                 # nothing new, but findings listed in known_findings.json (by witness tag) were observed again
                 results[item["key"]] = dict(found=False, known=sorted(w["known_only"]))
             elif w is not None:
